@@ -367,6 +367,8 @@ func c08History(r *simrt.RNG, gc *gen.Case, maxLen int) *c08Hist {
 	if r.Intn(2) == 0 {
 		catKind = []int{0, 1, 2, faults.KindPO, faults.KindPO}[r.Intn(5)]
 	}
+	alternate := r.Intn(3) == 0
+	altCats := [2]int{[]int{-1, 0, 1}[r.Intn(3)], []int{1, faults.KindPO, faults.KindPO}[r.Intn(3)]}
 	for i := 0; i < n; i++ {
 		e := hot[r.Intn(len(hot))]
 		if r.Intn(4) == 0 {
@@ -375,6 +377,10 @@ func c08History(r *simrt.RNG, gc *gen.Case, maxLen int) *c08Hist {
 		op := c08Op{Template: e.Template, Data: e.Data, IJ: e.IJ, Cat: catKind}
 		if r.Intn(6) == 0 {
 			op.Cat = r.Intn(faults.KindPO+2) - 1
+		}
+		if alternate {
+			// the same templates under two locales (or with and without one) in one history
+			op.Cat = altCats[r.Intn(2)]
 		}
 		switch x := r.Intn(100); {
 		case x < 40:
